@@ -269,6 +269,29 @@ Section ZoneProofs.
     obs_instant (rfc3339 t true) = Some (g_sec t).
   Proof. intro H. rewrite rfc3339_instant. unfold minute_aligned in H. rewrite H. f_equal. lia. Qed.
 
+  (* the text in full: wall reading exact; printed offset = the offset with its seconds part cut
+     off toward zero (so sign, hours and minutes are the offset's) *)
+  Lemma rfc3339_text_exact t :
+    let off := off_at (g_loc t) (g_sec t) in
+    rfc3339 t true = ObsZoned (g_sec t + off) (off - Z.rem off 60).
+  Proof.
+    intro off. unfold Time.rfc3339, Time.wall_sec. fold off.
+    pose proof (Z.quot_rem' off 60). f_equal. lia.
+  Qed.
+
+  Lemma printed_offset_props off :
+    let p := off - Z.rem off 60 in
+    Z.abs (Z.rem off 60) < 60 /\ (0 <= off -> 0 <= p <= off) /\ (off <= 0 -> off <= p <= 0).
+  Proof.
+    intro p. subst p. split; [|split].
+    - pose proof (Z.rem_bound_abs off 60 ltac:(lia)). lia.
+    - intro H. pose proof (Z.rem_bound_pos off 60 H ltac:(lia)).
+      pose proof (Z.rem_le off 60 H ltac:(lia)). lia.
+    - intro H. pose proof (Z.rem_bound_pos_neg off 60 ltac:(lia) H).
+      assert (Hn : 0 <= - off) by lia.
+      pose proof (Z.rem_le (- off) 60 Hn ltac:(lia)) as Hl. rewrite Z.rem_opp_l in Hl by lia. lia.
+  Qed.
+
   (* ---- the four functions ---- *)
   Notation date_time_to_rfc3339 := (date_time_to_rfc3339 off_of_instant off_of_wall).
   Notation date_time_layout_to_rfc3339 := (date_time_layout_to_rfc3339 off_of_instant off_of_wall).
@@ -298,6 +321,23 @@ Section ZoneProofs.
        apply (rfc3339_instant_aligned (mkG (g_sec t) (g_nsec t) _)); exact Ha).
   Qed.
 
+  (* without the guard: the result is Go's own RFC3339 text of the instant in the result zone, and
+     the instant it denotes is off by exactly the seconds part of the offset - less than 60 s,
+     toward the side the truncation goes; the printed offset never changes sign *)
+  Lemma to_rfc3339_zoned_exact t fromTZ toTZ : tz_ok toTZ ->
+    let off := off_at (loc_after toTZ (g_loc t)) (g_sec t) in
+    date_time_to_rfc3339 (Some (POk t true)) fromTZ toTZ
+      = RVal (ObsZoned (g_sec t + off) (off - Z.rem off 60))
+    /\ obs_instant (ObsZoned (g_sec t + off) (off - Z.rem off 60)) = Some (g_sec t + Z.rem off 60)
+    /\ Z.abs (Z.rem off 60) < 60
+    /\ (0 <= off -> 0 <= off - Z.rem off 60 <= off) /\ (off <= 0 -> off <= off - Z.rem off 60 <= 0).
+  Proof.
+    intros Hto off. split.
+    - unfold Time.date_time_to_rfc3339. rewrite (tz_logic_instant t fromTZ toTZ Hto).
+      f_equal. apply (rfc3339_text_exact (mkG (g_sec t) (g_nsec t) (loc_after toTZ (g_loc t)))).
+    - split; [simpl; f_equal; lia|]. apply printed_offset_props.
+  Qed.
+
   Lemma to_rfc3339_no_zone t :
     date_time_to_rfc3339 (Some (POk t false)) TzEmpty TzEmpty = RVal (ObsWall (wall_sec t)).
   Proof. reflexivity. Qed.
@@ -317,6 +357,16 @@ Section ZoneProofs.
     = RVal (rfc3339 (mkG (sec (from_epoch u n)) (nsec (from_epoch u n)) l) true).
   Proof.
     destruct tz as [|[z|] [|? ?]]; try contradiction; intros ->; reflexivity.
+  Qed.
+
+  Lemma epoch_to_date_time_exact n u tz l :
+    match tz with [] => l = LUTC | [Some z] => l = LZone z | _ => False end ->
+    let s := sec (from_epoch u n) in
+    let off := off_at l s in
+    epoch_to_date_time (Some (Some n)) (Some u) tz = RVal (ObsZoned (s + off) (off - Z.rem off 60)).
+  Proof.
+    intros Htz s off. rewrite (epoch_to_date_time_value n u tz l Htz). f_equal.
+    apply (rfc3339_text_exact (mkG (sec (from_epoch u n)) (nsec (from_epoch u n)) l)).
   Qed.
 
   (* EpochToDateTimeRFC3339 inverts DateTimeToEpoch: the text denotes the instant truncated to
